@@ -264,15 +264,19 @@ class _Ref(object):
 
     @staticmethod
     def mul(a, b):
-        return (a[0] * b[0], tuple(x + y for x, y in zip(a[1], b[1])))
+        v = None if (a[0] is None or b[0] is None) else a[0] * b[0]     # None: magnitude not tracked (fractional power)
+        return (v, tuple(x + y for x, y in zip(a[1], b[1])))
 
     @staticmethod
     def div(a, b):
-        return (a[0] / b[0], tuple(x - y for x, y in zip(a[1], b[1])))
+        v = None if (a[0] is None or b[0] is None) else a[0] / b[0]
+        return (v, tuple(x - y for x, y in zip(a[1], b[1])))
 
     @staticmethod
     def pow(a, e):
-        if e == 2:
+        if a[0] is None:
+            v = None
+        elif e == 2:
             v = a[0] * a[0]
         elif e == 3:
             v = a[0] * a[0] * a[0]
